@@ -250,6 +250,9 @@ func C07Roundtrip() {
 	decl := cfg.decl()
 	decl.SegDecls = []*SegDecl{{Name: "S", IsTarget: true, Max: zzIntPtr(-1), Elems: elems}}
 	zz.Assume((&ediValidateCtx{}).validateFileDecl(decl) == nil)
+	if zz.Param("FREEZE", 0) == 1 {
+		zz.Freeze(decl)
+	}
 	inputCopy := append([]byte{}, input...)
 	src := &zzChunkReader{data: input, failAt: -1}
 	r, err := NewReader("in", src, decl, "")
